@@ -378,7 +378,7 @@ func NewMemory(
 		onErr:            onErr,
 		queue:            &queue{},
 	}
-	mem.BaseMemory = amhist.NewBaseMemory(ctx, mach, cfg.BaseConfig, mem)
+	mem.BaseMemory = amhist.NewBaseMemory(ctx, mach, c.BaseConfig, mem)
 	tr := &tracer{
 		mem: mem,
 		id:  amhelp.RandId(4),
